@@ -17,7 +17,7 @@ SEV = ['debug', 'command', 'info', 'warning', 'error', 'fatal']
 FACS = ['f1', 'f2', 'f3']
 EXPRS = ['info', 'info,error', '>=warning', '>info', '<=command', '<info', '=error', '*', 'debug,>=error', '>=error,debug', '<command,error', '>warning,=debug,info',
          'foo', '>=foo', 'info,foo', None]   # None: key without a dot
-DESTS = [('A',), ('B',), ('A', 'B')]
+DESTS = [('A',), ('B',), ('A', 'B'), ('=A',)]       # '=A': the single destination written as a one-item list ( "file:A" )
 LINE = re.compile(r'^\[\d\d:\d\d:\d\d \d\d/\d\d/\d{4}\] \(([^:()]+):([a-z]+)\) (.*)$')
 
 
@@ -61,7 +61,7 @@ def section_text(sec):
     o = ['logs {']
     for e in sec:
         fac, ex, d = e
-        val = '"file:%s"' % d[0] if len(d) == 1 else '( %s )' % ', '.join('"file:%s"' % x for x in d)
+        val = '"file:%s"' % d[0] if (len(d) == 1 and not d[0].startswith('=')) else '( %s )' % ', '.join('"file:%s"' % x.lstrip('=') for x in d)
         o.append('  "%s" %s' % (key_of(e), val))
     o.append('}')
     return ('\n'.join(o) + '\n').encode()
@@ -81,7 +81,7 @@ def route(sec):
         for f in FACS:
             if fac == '*' or fac == f:
                 for s in ss:
-                    r.setdefault((f, s), set()).update(d)
+                    r.setdefault((f, s), set()).update(x.lstrip('=') for x in d)
     return r
 
 
@@ -143,7 +143,7 @@ def _task(srv, item):
 def sec_str(s):
     if s == NOSECTION:
         return '<file without logs section>'
-    return '{' + '; '.join('"%s" -> %s' % (key_of(e), '+'.join(e[2])) for e in s) + '}'
+    return '{' + '; '.join('"%s" -> %s' % (key_of(e), '+'.join(x.lstrip('=') for x in e[2])) for e in s) + '}'
 
 
 def main(tier):
@@ -162,7 +162,7 @@ def main(tier):
         sections += [t for t in itertools.combinations(sub, 3) if len({key_of(x) for x in t}) == 3]
     seqs = [(s,) for s in sections]
     # reload sequences
-    base = [(), NOSECTION, (('f1', 'info', ('A',)),), (('f1', 'info', ('B',)),), (('f1', 'info', ('A', 'B')),), (('f1', '>=warning', ('A',)),), (('*', '*', ('B',)),),
+    base = [(), NOSECTION, (('f1', 'info', ('=A',)),), (('f1', 'info', ('A', 'B', 'C')),), (('f1', 'info', ('A',)),), (('f1', 'info', ('B',)),), (('f1', 'info', ('A', 'B')),), (('f1', '>=warning', ('A',)),), (('*', '*', ('B',)),),
             (('*', '>=error', ('A',)),), (('f2', '<=command', ('B',)),), (('f1', 'foo', ('A',)),), (('f2', None, ('A',)),),
             (('f1', 'info', ('A',)), ('*', '>=warning', ('B',))), (('f1', '*', ('A',)), ('f2', '*', ('B',))), (('*', 'debug,>=error', ('A', 'B')),),
             (('f1', '<info', ('A',)), ('f1', '>info', ('B',))), (('f2', '=error', ('A',)), ('*', 'info,error', ('A',)))]
